@@ -66,16 +66,32 @@ func intLit(e ast.Expr) (int, bool) {
 	return 0, false
 }
 
-// locked: first statement takes the FIFO's lock and the body releases it (defer or plain call)
+// locked: the whole body runs under the FIFO's lock — the first statement takes it and either the
+// second statement is `defer …Unlock()` or the last statement is `…Unlock()` with no return in between.
 func locked(fd *ast.FuncDecl) bool {
-	if fd == nil || len(fd.Body.List) == 0 {
+	if fd == nil || len(fd.Body.List) < 2 {
 		return false
 	}
-	first, ok := fd.Body.List[0].(*ast.ExprStmt)
-	if !ok || !strings.HasSuffix(callPath(first.X), ".Lock") {
+	body := fd.Body.List
+	first, ok := body[0].(*ast.ExprStmt)
+	if !ok || !strings.HasSuffix(callPath(first.X), ".L.Lock") {
 		return false
 	}
-	return len(callsIn(fd.Body, ".Unlock")) > 0
+	if d, ok := body[1].(*ast.DeferStmt); ok && strings.HasSuffix(exprPath(d.Call.Fun), ".L.Unlock") {
+		return len(callsIn(fd.Body, ".Unlock")) == 1
+	}
+	last, ok := body[len(body)-1].(*ast.ExprStmt)
+	if !ok || !strings.HasSuffix(callPath(last.X), ".L.Unlock") || len(callsIn(fd.Body, ".Unlock")) != 1 {
+		return false
+	}
+	hasReturn := false
+	ast.Inspect(fd.Body, func(n ast.Node) bool {
+		if _, ok := n.(*ast.ReturnStmt); ok {
+			hasReturn = true
+		}
+		return true
+	})
+	return !hasReturn
 }
 
 type facts struct {
